@@ -56,10 +56,26 @@ INVALID_KEYS = ["f1info", "f1.loud", "f1.!info", "f1.=>info", "f1.>=", "f1.info,
                 "f1.<", "f1.info;error", "f2.>>info", "f1.info.error", "f1.=", "core.<=nothing"]
 
 
-def gen_section(rng, dests):
-    """Returns (entries for confgen, routes dict (fac, sev)->set(dest), description)."""
+def build_section(items, vt):
+    """items: [dict(key, valid, fac, sset, ds, as_list)] -> (entries for confgen, routes dict (fac, sev)->set(dest))."""
     entries = []
     routes = {}
+    for it in items:
+        if it["as_list"] or len(it["ds"]) != 1:
+            node = ("list", [("file:" + d).encode() for d in it["ds"]])
+        else:
+            node = ("str", ("file:" + it["ds"][0]).encode())
+        entries.append((it["key"].encode(), node))
+        if it["valid"]:
+            for s in it["sset"]:
+                routes.setdefault((it["fac"], s), set()).update(it["ds"])
+    if vt is not None:
+        entries.append((b"verbose_timestamp", ("str", vt)))
+    return entries, routes
+
+
+def gen_items(rng, dests):
+    items = []
     used = set()
     for _ in range(rng.choice([0, 1, 2, 3, 4, 6])):
         if rng.random() < 0.25:
@@ -74,19 +90,41 @@ def gen_section(rng, dests):
         if key.lower() in used:
             continue
         used.add(key.lower())
-        nd = rng.choice([1, 1, 2, 3])
+        nd = rng.choice([1, 1, 2, 3, 0] if rng.random() < 0.5 else [1, 1, 2, 3])
         ds = [rng.choice(dests) for _ in range(nd)]
-        if nd == 1 and rng.random() < 0.6:
-            node = ("str", ("file:" + ds[0]).encode())
+        items.append(dict(key=key, valid=valid, fac=fac, sset=sset, ds=ds, as_list=not (nd == 1 and rng.random() < 0.6)))
+    vt = rng.choice([b"true", b"false"]) if rng.random() < 0.3 else None
+    return items, vt
+
+
+def mutate_items(rng, items, dests):
+    """The same entries (same keys, nothing added, removed or renamed) with the destinations of some - often several - changed:
+    moved to another file, a list filled that was empty, emptied, grown, shrunk."""
+    out = [dict(it, ds=list(it["ds"])) for it in items]
+    if not out:
+        return out
+    for it in rng.sample(out, rng.randint(1, len(out))):
+        how = rng.random()
+        if not it["ds"] or how < 0.4:
+            it["ds"] = [rng.choice(dests) for _ in range(rng.choice([1, 1, 2]))]
+            if len(it["ds"]) > 1:
+                it["as_list"] = True
+        elif how < 0.55:
+            it["ds"] = []
+            it["as_list"] = True
+        elif how < 0.8:
+            it["ds"] = it["ds"] + [rng.choice(dests)]
+            it["as_list"] = True
         else:
-            node = ("list", [("file:" + d).encode() for d in ds])
-        entries.append((key.encode(), node))
-        if valid:
-            for s in sset:
-                routes.setdefault((fac, s), set()).update(ds)
-    if rng.random() < 0.3:
-        entries.append((b"verbose_timestamp", ("str", rng.choice([b"true", b"false"]))))
-    return entries, routes
+            it["ds"] = it["ds"][:-1] or [rng.choice(dests)]
+            it["as_list"] = it["as_list"] or len(it["ds"]) != 1
+    return out
+
+
+def gen_section(rng, dests):
+    """Returns (entries for confgen, routes dict (fac, sev)->set(dest))."""
+    items, vt = gen_items(rng, dests)
+    return build_section(items, vt)
 
 
 def expected_dests(routes, fac, sev):
@@ -97,7 +135,16 @@ def make_case(seed, i, tier):
     rng = random.Random("c18/%d/%d" % (seed, i))
     nsec = rng.choice([1, 1, 2, 3, 4])
     dests = ["c%d_%s.log" % (i, x) for x in "abcd"]
-    secs = [gen_section(rng, dests[:rng.choice([2, 3, 4])]) for _ in range(nsec)]
+    secs = []
+    prev = None
+    for k in range(nsec):
+        if prev is not None and prev[0] and rng.random() < 0.45:
+            # an edit of the previous section that only changes where entries go (keys stay)
+            items, vt = mutate_items(rng, prev[0], dests), prev[1]
+        else:
+            items, vt = gen_items(rng, dests[:rng.choice([2, 3, 4])])
+        prev = (items, vt)
+        secs.append(build_section(items, vt))
     if nsec >= 2 and rng.random() < 0.2:
         secs[-1] = ([], {})                      # logs section dropped entirely
     if nsec >= 3 and rng.random() < 0.2:
